@@ -9,9 +9,9 @@
      n    the parameter's position (0 for lines that belong to no parameter)
      typ  the type written on the line ("absent" if none)      doc  the description class
      lex  the lexical class of the text after "Defaults to" ("none" when no default is carried)
-   EmitLines(cfg, i, asBuilt)   what the emitter writes.  asBuilt = the set of listed finding ids; two of them have an emitter-side cause
+   EmitLines(cfg, i, asBuilt)   what the emitter writes.  asBuilt = the set of listed finding ids; one of them has an emitter-side cause
                        that is reproduced here: a RETURN entry whose type is not written gets no type line at all
-                       (numpydoc_no_types_unparsable); a return-only section is glued to its header (gn_return_only_mangled).
+                       (numpydoc_no_types_unparsable).  (A return-only section was glued to its heading until repaired.)
                        (Parameters whose type is not written lost their name line too, until repaired.)
    ParseLines(st, ls)  a fold over the lines, per style, returning an interface.
    RoundTripLines      ParseLines(EmitLines(i)) agrees with DocRules!Norm(cfg, i) -- a theorem about two separately
@@ -27,7 +27,7 @@ Lex(d, t) == CASE d = "absent" -> "none" [] d = "None" -> "cq_none"
                [] d = "float_pos" -> "float_text" [] d = "float_neg" -> "neg_float_text"
                [] d = "bool_T" -> "True" [] d = "bool_F" -> "False"
                [] d = "str" -> (IF NeedsQuoting(t) THEN "dq_word" ELSE "bare_word")
-               [] d = "str_empty" -> "nothing"
+               [] d = "str_empty" -> "dq_empty"                 \* `""`, typed or not (written as nothing at all until repaired, 2e64952)
                [] d = "code" -> "cq_code"
                [] d = "str_odd" -> (IF NeedsQuoting(t) THEN "dq_phrase" ELSE "bare_phrase")
                [] d = "str_dot" -> (IF NeedsQuoting(t) THEN "dq_dotted" ELSE "bare_dotted")
@@ -40,7 +40,7 @@ DefFromLex(lex, t) ==
     [] lex = "decimal_zero" -> "int_zero" [] lex = "neg_decimal" -> "int_neg"
     [] lex = "float_text" -> "float_pos" [] lex = "neg_float_text" -> "float_neg"
     [] lex = "True" -> "bool_T" [] lex = "False" -> "bool_F"
-    [] lex \in {"dq_word", "bare_word"} -> "str" [] lex = "nothing" -> "str_empty" [] lex = "cq_code" -> "code"
+    [] lex \in {"dq_word", "bare_word"} -> "str" [] lex = "dq_empty" -> "str_empty" [] lex = "cq_code" -> "code"
     [] lex \in {"dq_phrase", "bare_phrase"} -> "str_odd" [] lex \in {"dq_dotted", "bare_dotted"} -> "str_dot" [] lex \in {"dq_keyword", "bare_keyword"} -> "str_kw" [] lex = "exp_text" -> "float_exp" [] lex = "big_decimal" -> "int_big"
 
 L(k, n, typ, doc, lex) == [k |-> k, n |-> n, typ |-> typ, doc |-> doc, lex |-> lex]
@@ -59,22 +59,17 @@ EmitParam(cfg, p, n, asBuilt) ==
     [] cfg.style = "google" -> <<L("garg", n, t, p.doc, lx)>>
     [] cfg.style = "numpydoc" ->
          <<L("nname", n, t, "absent", "none")>> \o <<L("ndoc", n, "absent", p.doc, lx)>>      \* (the name line is always written: repaired)
-\* as built, a Google/NumPy return section that follows NO parameter section is glued to its header
-\* ("Returns:  int:" / "-------int"): the emitter-side cause of the finding gn_return_only_mangled
-EmitReturnGlued(cfg, r) ==
-  LET t == IF Written(cfg, r) THEN r.typ ELSE "absent" d == r.doc # "absent" IN
-  IF cfg.style = "google" THEN <<L("gret_glued", 0, t, "absent", "none")>> \o (IF d THEN <<L("gret_doc", 0, "absent", r.doc, "none")>> ELSE <<>>)
-  ELSE <<L("ReturnsHdr", 0, "absent", "absent", "none"), L("dashes_glued", 0, t, "absent", "none")>>
-       \o (IF d THEN <<L("ndoc", 0, "absent", r.doc, "none")>> ELSE <<>>)
+\* (as built a Google/NumPy return section that followed NO parameter section was glued to its heading -- "Returns:  int:" / "-------int" --
+\* until repaired, 2780ff2)
 \* (a description line is written only when there is a description; a return entry with nothing to write gets no lines at all)
 EmitReturn(cfg, r, asBuilt) ==
-  LET w == Written(cfg, r) t == IF w THEN r.typ ELSE "absent" d == r.doc # "absent" IN
+  LET w == D!RetTypWritten(cfg, r) t == IF w THEN r.typ ELSE "absent" d == r.doc # "absent" IN
   IF ~D!RetWritten(cfg, r) THEN <<>> ELSE
   CASE cfg.style = "rest" -> (IF d THEN <<L("return", 0, "absent", r.doc, "none")>> ELSE <<>>) \o (IF w THEN <<L("rtype", 0, t, "absent", "none")>> ELSE <<>>)
     [] cfg.style = "google" -> <<L("ReturnsHdr", 0, "absent", "absent", "none"), L("gret_typ", 0, t, "absent", "none")>>
                                  \o (IF d THEN <<L("gret_doc", 0, "absent", r.doc, "none")>> ELSE <<>>)
     [] cfg.style = "numpydoc" -> <<L("ReturnsHdr", 0, "absent", "absent", "none"), L("dashes", 0, "absent", "absent", "none")>>
-                                 \o (IF w \/ "numpydoc_no_types_unparsable" \notin asBuilt THEN <<L("nret_typ", 0, t, "absent", "none")>> ELSE <<>>)
+                                 \o <<L("nret_typ", 0, t, "absent", "none")>>
                                  \o (IF d THEN <<L("ndoc", 0, "absent", r.doc, "none")>> ELSE <<>>)
 SectionHdr(cfg, i) == IF i.params = <<>> THEN <<>>
                       ELSE CASE cfg.style = "google" -> <<L("ArgsHdr", 0, "absent", "absent", "none")>>
@@ -86,7 +81,6 @@ EmitLines(cfg, i, asBuilt) ==
   \o Concat([k \in 1..Len(i.params) |-> EmitParam(cfg, i.params[k], k, asBuilt)])
   \o (IF cfg.style # "rest" /\ i.params # <<>> THEN <<Blank>> ELSE <<>>)
   \o (IF i.ret = D!NoRet \/ ~D!RetWritten(cfg, i.ret) THEN <<>>
-      ELSE IF "gn_return_only_mangled" \in asBuilt /\ i.params = <<>> /\ cfg.style # "rest" /\ (Written(cfg, i.ret) \/ cfg.style = "numpydoc") THEN EmitReturnGlued(cfg, i.ret)
       ELSE EmitReturn(cfg, i.ret, asBuilt))
 
 \* ---- parse: a fold over the lines ------------------------------------------------------------------------------
